@@ -170,7 +170,11 @@ def makeUnique (m : List (Nat × Nat)) (id : Nat) : List (Nat × Nat) × IdStr :
 /-- `format!("{a:#x}")` (string_table.rs:60-68) -/
 def hexStr (a : Nat) : Str := "0x" ++ String.ofList (Nat.toDigits 16 a)
 
-def P.setThread (p : P) (i : Nat) (t : Thread) : P := { p with threads := p.threads.set i t }
+/-- write a thread back. `Thread::process` has no setter in the Rust code (thread.rs:24, 88-90): the
+stored thread keeps the process of the thread it replaces (every caller passes an update of the
+thread it read from slot `i`, so this is the same value). -/
+def P.setThread (p : P) (i : Nat) (t : Thread) : P :=
+  { p with threads := p.threads.modify i (fun old => { t with process := old.process }) }
 
 /-- `handle_for_category` (profile.rs:262-270) -/
 def P.handleForCategory (p : P) (name : Str) (color : Nat) : P × Nat :=
